@@ -20,6 +20,8 @@ package util
 //	VERIF_SEED=<int>     seeds the delay PRNG
 //	VERIF_INVENTORY=1    for points named "vdr:remove*", walk detail[0]
 //	                     and record entry count / lstat byte total.
+//	VERIF_SNAPSHOT_DIR=<dir>  for points named "snapshot:*", copy the file
+//	                     detail[0] to <dir>/<name after the colon>.<hit>
 
 import (
 	"encoding/json"
@@ -51,6 +53,7 @@ type verifState struct {
 	crashSig  syscall.Signal
 	crashOnce string
 	inventory bool
+	snapDir   string
 	active    bool
 	proc      string
 	seed      uint64
@@ -123,6 +126,7 @@ func verifInit() {
 	}
 	s.crashOnce = os.Getenv("VERIF_CRASH_ONCE")
 	s.inventory = os.Getenv("VERIF_INVENTORY") != ""
+	s.snapDir = os.Getenv("VERIF_SNAPSHOT_DIR")
 }
 
 func verifMonoNs() int64 {
@@ -174,7 +178,7 @@ type verifRecord struct {
 func VerifPoint(name string, detail ...string) {
 	s := &verifSt
 	s.once.Do(verifInit)
-	if s.trace == nil && (!s.active || (len(s.delays) == 0 && s.crashSig == 0)) {
+	if s.trace == nil && s.snapDir == "" && (!s.active || (len(s.delays) == 0 && s.crashSig == 0)) {
 		return
 	}
 	seq := s.seq.Add(1)
@@ -183,6 +187,12 @@ func VerifPoint(name string, detail ...string) {
 	hit := s.hits[name]
 	s.mu.Unlock()
 
+	if s.snapDir != "" && strings.HasPrefix(name, "snapshot:") && len(detail) > 0 {
+		if b, err := os.ReadFile(detail[0]); err == nil {
+			os.WriteFile(filepath.Join(s.snapDir,
+				name[len("snapshot:"):]+"."+strconv.FormatInt(hit, 10)), b, 0644)
+		}
+	}
 	crash := false
 	if s.active && s.crashSig != 0 && (s.crashName == name || s.crashName == "*") {
 		var k int64
